@@ -740,12 +740,24 @@ def gen_cases(ctx):
                      for red in ((True, False) if api == "inv_quad" else (True,))]
         if quick:
             api_cells = [api_cells[(vi + j * 3) % len(api_cells)] for j in range(2)]
+        if quick and name.startswith(MB_PREFIX) and "inv_quad" in apis and leaf["k"] != "Ident":
+            # LinearOperator.inv_quad documents broadcasting of the rhs batch: one broadcast call per multi-batch variant
+            api_cells.append(("inv_quad-b", "default" if vi % 2 else "mcs0", {} if vi % 2 else {"mcs": 0, "nts": 2}, vi % 4 < 2))
         for api, pname, ov, red in api_cells:
             st = dict(defaults)
             st.update(ov)
-            R = ops.rnd(rng, *batch, n, 2) if api == "inv_quad" else None
+            bc = api == "inv_quad-b" or (not quick and api == "inv_quad" and max(batch + [1]) > 1 and not red
+                                         and leaf["k"] != "Ident")
+            api = "inv_quad" if api == "inv_quad-b" else api
+            if bc:
+                big = [i for i, x in enumerate(batch) if x > 1]
+                rb = list(batch)
+                rb[big[vi % len(big)]] = 1
+                R = ops.rnd(rng, *rb, n, 2)
+            else:
+                R = ops.rnd(rng, *batch, n, 2) if api == "inv_quad" else None
             cases.append({"name": name, "prof": pname, "spec": spec, "st": st,
-                          "rhs": "mat" if api == "inv_quad" else "none", "R": R,
+                          "rhs": ("bmat" if bc else "mat") if api == "inv_quad" else "none", "R": R,
                           "logdet": api != "inv_quad", "reduce": red, "api": api,
                           "tseed": rng.getrandbits(31), "warm": False})
         vi += 1
@@ -841,6 +853,33 @@ def replay_of(case, obs, extra=None):
 
 # ------------------------------------------------------------------------------------------ run
 
+def run_shards(ctx, shards, timeout=900, workers=None):
+    """common.run_shards with a bounded number of concurrent shard compilers (default 3; C05_SHARD_WORKERS overrides)"""
+    from concurrent.futures import ThreadPoolExecutor
+    workers = workers or int(os.environ.get("C05_SHARD_WORKERS", "3"))
+    paths = []
+    for name, src in shards:
+        p = os.path.join(ctx.gen, "cases_%s.v" % name)
+        open(p, "w").write(src)
+        paths.append((name, p))
+
+    def one(np):
+        name, p = np
+        return name, common.coqc_file(ctx.prop, p, timeout=timeout)
+    res = {}
+    with ThreadPoolExecutor(max_workers=workers) as ex:
+        for name, r in ex.map(one, paths):
+            res[name] = r
+    for name, p in paths:
+        for fn in [p[:-2] + ext for ext in (".vo", ".vok", ".vos", ".glob")] + [
+                os.path.join(os.path.dirname(p), "." + os.path.basename(p)[:-2] + ".aux")]:
+            try:
+                os.remove(fn)
+            except OSError:
+                pass
+    return res
+
+
 def run(ctx):
     torch.set_num_threads(1)
     t0 = time.time()
@@ -889,7 +928,7 @@ def run(ctx):
             os.remove(os.path.join(ctx.gen, fn))
     mism = []
     if ok:
-        res = common.run_shards(ctx, shards, timeout=1200)
+        res = run_shards(ctx, shards, timeout=1200)
         for si, (name, _) in enumerate(shards):
             rc, out = res[name]
             bad = parse_bad(out) if rc == 0 else None
